@@ -59,6 +59,12 @@ CHECKS = {
   text="9 script families (value, binding, throwing, undefined variable, syntax error, non-terminating with Env.sleep, slow-but-finishing at 4/6/12 ms) x 12 timeout settings (Control.JavascriptTimeout {0,5ms,negative} x DefaultJavascriptTimeout {10ms,negative} x JavascriptTimeouts on/off) x 3 contexts (Location.RunJavascript, rule condition, rule action through ProcessEvent) run under the scheduler with virtual time; every schedule with at most 2 deviations (3 thorough), where the watchdog timer landing early at any scheduling point is a deviation. The caller must return on every schedule; an overrunning script must yield an error / non-complete node within limit + one wait quantum; throwing and invalid scripts yield errors; within-limit scripts return their value. Busy loops without a scheduling point run natively in child processes against a 20 s deadline (3 isolated runs).",
   note="Code between scheduling points takes no virtual time; an early timer landing models slow real execution, so a finishing script may then end either way (but never hang, never success with a nil value).",
   design="2/C14"),
+ "C17": dict(
+  engine="SEQ+SCHED",
+  technique="explicit-state differential model checking over cache configurations (BFS over request histories run on seven worlds at once) plus stateless schedule exploration of concurrent requests through sys.System",
+  text="Sequential: BFS to depth 4 (6 thorough) over {CreateLocation, AddFact, RemFact, GetFact, SearchFacts, AddRule, ProcessEvent, ClearLocation} on two locations and clock += 2ms; every history runs simultaneously on a cache-less core.Location and on six sys.System worlds (LocationTTL never/1ms/forever x CheckExistence off/on, recording storage, virtual clock), both states: all answers must agree, refused requests to uncreated locations must leave no storage pair and no cache entry. Concurrent: under the controlled scheduler, concurrent FIRST requests for one location (TTL forever/1ms) must call Storage.Load exactly once, and 2-3 clients x 1-2 requests on one location (TTL never/1ms) must be linearizable against sequential runs through an identically configured System, stored pairs included (deviation bound 1 quick / 2 thorough).",
+  note="Two engines decide this property; bin/run.sh runs both and folds the evidence. Errors are compared by class; removing an id that is not stored is unspecified.",
+  design="2/C17"),
  "C19": dict(
   engine="GEN+SEQ",
   technique="exhaustive enumeration of the product protection state x caller context x operation x set-up history on the real Location (directly and via sys.System), privileged before/after snapshot and unprotected-twin oracle",
